@@ -153,7 +153,7 @@ class Scenarios(Stage):
     """short scripted situations the free-running machine reaches too rarely to be relied on (bare-id, twins, star-after-exclusion, declined-quit), each with drawn details, run
     through the same executor and judged by the same model"""
     name = 'scenarios'
-    KINDS = ['bare-id', 'twins', 'star-after-exclusion', 'declined-quit', 'blanks-in-string']
+    KINDS = ['bare-id', 'twins', 'star-after-exclusion', 'declined-quit', 'blanks-in-string', 'refused-selection']
 
     def examples(self, tier):
         return 80 if tier == 'quick' else 14 * 400
